@@ -33,13 +33,16 @@ TRX_DIR = os.path.realpath(sys.argv[1])
 # line-level schedules (`L k op`): the clock thread runs under a trace function that counts the line events of the toolkit's
 # own code on the tick's path and is parked before the k-th one - a preemption point between ANY two statements
 LINE_FILES = {"transceiver.py", "burst_fwd.py", "fake_trx.py", "clck_gen.py", "gsm_shared.py"}
+# `S k op`: the other way round - the SOCKET operation runs in the second thread and is parked before its k-th line event
+# (e.g. inside its locked section), a whole tick runs there, then the operation finishes
+LINE_FILES_S = {"transceiver.py", "fake_trx.py", "ctrl_if.py", "ctrl_if_trx.py", "data_if.py", "clck_gen.py"}
 
 
 def _tracer(frame, event, arg):
     co = frame.f_code
     if event == "call":
         fn = co.co_filename
-        if os.path.basename(fn) in LINE_FILES and os.path.realpath(os.path.dirname(fn)) == TRX_DIR and not co.co_name.startswith("<"):
+        if os.path.basename(fn) in (LINE_FILES_S if GATE.mode == "S" else LINE_FILES) and os.path.realpath(os.path.dirname(fn)) == TRX_DIR and not co.co_name.startswith("<"):
             return _tracer
         return None
     if event == "line":
@@ -64,7 +67,7 @@ class Gate:
     def point(self, name):
         if not self.active or threading.get_ident() != self.clock_ident:
             return
-        if (self.mode == "L") != name.startswith("line:"):
+        if (self.mode in ("L", "S")) != name.startswith("line:"):
             return
         k = self.count
         self.count += 1
@@ -86,10 +89,11 @@ class PausingLock:
         self.real = threading.Lock()
 
     def _take(self, *a, **k):
-        if GATE.active and threading.get_ident() != GATE.clock_ident and GATE.parked and self.real.locked():
-            # the socket thread needs the lock while the clock thread is parked inside its locked section: as in real life
-            # it has to wait - the clock thread runs on until it releases the lock, stops there, and the socket operation
-            # then runs to completion before the tick goes on
+        blocking = (a[0] if a else k.get("blocking", True)) and k.get("timeout", -1) == -1
+        if blocking and GATE.active and threading.get_ident() != GATE.clock_ident and GATE.parked and self.real.locked():
+            # this thread needs the lock while the gated thread is parked inside its locked section: as in real life it has to
+            # wait - the gated thread runs on until it releases the lock, stops there, and this thread's operation then runs
+            # to completion before the gated one goes on (a non-blocking attempt simply fails)
             GATE.handoff = True
             GATE.go.release()
         return self.real.acquire(*a, **k)
@@ -168,8 +172,9 @@ def do_op(app, t):
 
 
 def race(app, k, t, mode="R"):
-    """tick in a second thread, stopped at boundary k (mode R) or before its k-th line event (mode L); socket op in this
-    thread; then the tick finishes"""
+    """mode R / L: the tick runs in a second thread, stopped at boundary k (R) or before its k-th line event (L); the socket
+    operation runs in this thread; then the tick finishes.  mode S: the socket operation runs in the second thread, stopped
+    before its k-th line event; a whole tick runs in this thread; then the operation finishes."""
     excs = []
     if not app.clck_gen.running:
         do_op(app, t)
@@ -180,33 +185,42 @@ def race(app, k, t, mode="R"):
     TICKFN[0] = app.clck_gen.clck_src
     done = threading.Event()
 
-    def clock():
-        GATE.clock_ident = threading.get_ident()
+    def tick():
+        app.clck_gen.send_clck_ind()
+
+    def op():
+        do_op(app, t)
+
+    gated, other = (op, tick) if mode == "S" else (tick, op)
+    glabel, olabel = ("socket", "clock") if mode == "S" else ("clock", "socket")
+
+    def second():
+        GATE.clock_ident = threading.get_ident()      # the thread that is gated
         GATE.active = True
-        if mode == "L":
+        if mode in ("L", "S"):
             sys.settrace(_tracer)
         try:
-            app.clck_gen.send_clck_ind()
+            gated()
         except Exception as e:
-            excs.append("clock:" + type(e).__name__)
+            excs.append(glabel + ":" + type(e).__name__)
         finally:
             sys.settrace(None)
             GATE.active = False
             done.set()
             GATE.reached.release()       # wake the controller if the boundary was never reached
 
-    th = threading.Thread(target=clock)
+    th = threading.Thread(target=second)
     th.start()
-    GATE.reached.acquire()               # the tick is parked at boundary k, or has finished
+    GATE.reached.acquire()               # the gated thread is parked at point k, or has finished
     try:
-        do_op(app, t)
+        other()
     except Exception as e:
-        excs.append("socket:" + type(e).__name__)
+        excs.append(olabel + ":" + type(e).__name__)
     GATE.released = True
     GATE.go.release()
     th.join(30)
     if th.is_alive():
-        excs.append("clock:DEADLOCK")
+        excs.append(glabel + ":DEADLOCK")
     return excs, GATE.count, GATE.at
 
 
@@ -237,7 +251,7 @@ def run_line(line):
         extra_items = []
         exc = None
         try:
-            if t[0] in ("R", "L"):
+            if t[0] in ("R", "L", "S"):
                 excs, n, at = race(app, int(t[1]), t[2:], t[0])
                 extra_items = ["at:" + at, "points:%d" % n] + ["EXC:" + e for e in excs]
             else:
